@@ -80,7 +80,7 @@ impl<'a> Lexer<'a> {
                         Some('"') => {
                             self.txt.next();
                             char_data = Some(String::new());
-                            self.state = State::Quote;
+                            self.state = State::Quote { is_list: false };
                         }
                         Some(';') => self.state = State::Comment { is_list: false },
                         Some(ch) if ch.is_whitespace() => {
@@ -115,9 +115,17 @@ impl<'a> Lexer<'a> {
                         }
                     }
                 }
-                State::Quote => {
+                State::Quote { is_list } => {
                     match ch {
                         // end and gobble the '"'
+                        Some('"') if is_list => {
+                            self.txt.next();
+                            char_data_vec
+                                .as_mut()
+                                .ok_or(LexerError::IllegalState("char_data_vec is None"))?
+                                .push(char_data.take().unwrap_or_else(|| "".into()));
+                            self.state = State::List;
+                        }
                         Some('"') => {
                             self.state = State::RestOfLine;
                             self.txt.next();
@@ -169,6 +177,11 @@ impl<'a> Lexer<'a> {
                     Some(';') => {
                         self.txt.next();
                         self.state = State::Comment { is_list: true }
+                    }
+                    Some('"') => {
+                        self.txt.next();
+                        char_data = Some(String::new());
+                        self.state = State::Quote { is_list: true };
                     }
                     Some(')') => {
                         self.txt.next();
@@ -340,7 +353,7 @@ pub(crate) enum State {
     //  Name,              // CharData + '.' + CharData
     Comment { is_list: bool }, // ;.*
     At,                        // @
-    Quote,                     // ".*"
+    Quote { is_list: bool },   // ".*"
     Dollar,                    // $
     EOL,                       // \n or \r\n
     EOF,
